@@ -149,7 +149,8 @@ Search::Search(const Position& position, const Limits& limits,
     }
     else if (limits.depth != 0)
     {
-        _search_depth = limits.depth;
+        // per-depth tables are sized for MAX_DEPTH iterations
+        _search_depth = std::min(static_cast<Depth>(limits.depth), MAX_DEPTH);
         _search_time = INFINITE_DURATION;
     }
     else if (limits.movetime != 0)
